@@ -268,6 +268,12 @@ class FitYamlReader(YamlReaderMixin, FitDReprBase):
                 _fit_object.limit_parameter(_par, _low, _high)
 
         _fit_results = yaml_doc.pop("fit_results", None)
+        if _fit_type == "custom" and _fit_results and _fit_results.get("parameter_values") is not None:
+            # a CustomFit has no parametric model that carries the parameter values
+            _fixed_par_names = _fit_object._fitter.fixed_parameters
+            _fit_object.set_parameter_values(
+                **{_pn: _pv for _pn, _pv in zip(_fit_object.parameter_names, _fit_results["parameter_values"]) if _pn not in _fixed_par_names}
+            )
         _fit_object._loaded_result_dict = to_numpy_arrays(_fit_results)
         return _fit_object, yaml_doc
 
